@@ -465,7 +465,9 @@ Inductive cexpr :=
    the try and has to unwind through it:  long dv(long p, long q) { return p / q; }   long md(long p, long q) { return p % q; }
    long at(long i) { int[3] t; t[0] = 5; t[1] = 15; t[2] = 25; return t[i]; } *)
 | CCallDiv (x y : cexpr) | CCallMod (x y : cexpr) | CCallIdx (i : cexpr).
-Inductive rterr := RDiv0 | RMod0 | RBounds | RNull.
+(* RArgStr: a string parameter of a called function accepts only a variable or a literal as its argument - any other
+   string expression (names[i], x + y, a call) is rejected before anything is evaluated; second = the parameter q *)
+Inductive rterr := RDiv0 | RMod0 | RBounds | RNull | RArgStr (second : bool).
 
 Definition arr_get (i : Z) : Z + rterr :=
   if (i <? 0) || (3 <=? i) then inr RBounds
@@ -496,6 +498,8 @@ Definition err_msg (k : rterr) : str :=
   | RMod0 => s2l "Modulo by zero"
   | RBounds => s2l "Array index out of bounds"
   | RNull => s2l "Null pointer dereference"
+  | RArgStr false => s2l "Type mismatch: cannot pass non-string expression to string parameter 'p'"
+  | RArgStr true => s2l "Type mismatch: cannot pass non-string expression to string parameter 'q'"
   end.
 
 (* std::tolower in the "C" locale, byte by byte *)
@@ -529,11 +533,61 @@ Definition classify (msg : str) (is_checked : bool) : str :=
 (* build_result_err: Err whose *string* channel is "<variant>: <message>" *)
 Definition build_err (msg : str) (is_checked : bool) : stored :=
   mkS true (s2l "Err") true 0 (classify msg is_checked ++ s2l ": " ++ msg).
-(* build_result_ok on a numeric operand *)
-Definition build_ok (z : Z) : stored := mkS true (s2l "Ok") true z [].
+(* the same written over an arbitrary Variable (build_result_err also sets only the string channel): the integer channel
+   would be stale, but the string is never empty, so no consumer looks at it *)
+Definition build_err_over (init : stored) (msg : str) (is_checked : bool) : stored :=
+  mkS true (s2l "Err") true (s_int init) (classify msg is_checked ++ s2l ": " ++ msg).
+(* build_result_ok: `Variable result;` (default-constructed: not an enum, variant "", no payload, integer 0,
+   string "") whose fields are then written one by one - is_enum, enum_variant = "Ok", has_associated_value = true and
+   ONE of the two payload channels: `value.is_string() ? associated_str_value = .. : associated_int_value = ..`.
+   The other channel is whatever the Variable held before: build_ok_over makes that dependence explicit, the code
+   starts from a fresh Variable on every evaluation (fresh_var) *)
+Inductive tval := TVInt (z : Z) | TVStr (s : str).
+Definition fresh_var : stored := mkS false [] false 0 [].
+Definition build_ok_over (init : stored) (v : tval) : stored :=
+  match v with
+  | TVInt z => mkS true (s2l "Ok") true z (s_str init)
+  | TVStr s => mkS true (s2l "Ok") true (s_int init) s
+  end.
+Definition build_ok_t (v : tval) : stored := build_ok_over fresh_var v.
+Definition build_ok (z : Z) : stored := build_ok_t (TVInt z).
 (* evaluate_try_like_expression: always leaves by throwing ReturnException(result) *)
-Definition try_like (is_checked : bool) (r : Z + rterr) : stored :=
-  match r with inl z => build_ok z | inr k => build_err (err_msg k) is_checked end.
+Definition try_like (is_checked : bool) (r : tval + rterr) : stored :=
+  match r with inl v => build_ok_t v | inr k => build_err (err_msg k) is_checked end.
+
+(* string-valued operands (build_result_ok's is_string branch):  string[3] names = ["ann", "bob", "cy"];
+   string parameters sa, sb;  string nm(long i) { string[3] t = ["ann", "bob", "cy"]; return t[i]; }
+   string cat(string p, string q) { return p + q; } *)
+Inductive sexpr :=
+| SLit (s : str) | SSA | SSB
+| SCat (x y : sexpr)               (* (x + y) *)
+| SIdx (i : cexpr)                 (* names[i] - the index is an integer core expression (may itself fail) *)
+| SCallIdx (i : cexpr)             (* nm(i): the indexing one call frame below the try *)
+| SCallCat (x y : sexpr).          (* cat(x, y) *)
+Inductive texpr := TEInt (e : cexpr) | TEStr (e : sexpr).
+
+Definition names_get (i : Z) : str + rterr :=
+  if (i <? 0) || (3 <=? i) then inr RBounds
+  else if i =? 0 then inl (s2l "ann") else if i =? 1 then inl (s2l "bob") else inl (s2l "cy").
+
+Definition simple_s (e : sexpr) : bool := match e with SLit _ | SSA | SSB => true | _ => false end.
+Fixpoint seval (a b : Z) (sa sb : str) (e : sexpr) : str + rterr :=
+  let bin (x y : sexpr) :=
+      match seval a b sa sb x with inr k => inr k | inl u =>
+      match seval a b sa sb y with inr k => inr k | inl v => inl (u ++ v) end end in
+  match e with
+  | SLit s => inl s | SSA => inl sa | SSB => inl sb
+  | SCat x y => bin x y
+  | SCallCat x y => if negb (simple_s x) then inr (RArgStr false) else if negb (simple_s y) then inr (RArgStr true) else bin x y
+  | SIdx i => match ceval a b i with inr k => inr k | inl u => names_get u end
+  | SCallIdx i => match ceval a b i with inr k => inr k | inl u => names_get u end
+  end.
+
+Definition teval (a b : Z) (sa sb : str) (e : texpr) : tval + rterr :=
+  match e with
+  | TEInt e => match ceval a b e with inl z => inl (TVInt z) | inr k => inr k end
+  | TEStr e => match seval a b sa sb e with inl s => inl (TVStr s) | inr k => inr k end
+  end.
 
 Inductive tctx :=
 | TRet       (* R g(int a, int b) { ..; println("g1"); return try (e); }     main: match (g(a, b)) {..} *)
@@ -542,7 +596,10 @@ Inductive tctx :=
 | TMain      (* main: ..; println("g1"); R r = try (e); println("g2"); match (r) {..}                  *)
 | TAsg       (* void g(..) { ..; R r = R::Ok(0); println("g1"); r = try (e); println("g2"); match (r) {..} } *)
 | TAsgMain.  (* the same statements in main *)
-Record progT := mkT { t_checked : bool; t_ctx : tctx; t_a : Z; t_b : Z; t_expr : cexpr }.
+(* R = Result<int, RuntimeError> for an integer operand, Result<string, RuntimeError> for a string operand;
+   g takes (int a, int b) resp. (int a, int b, string sa, string sb) *)
+Record progT := mkT { t_checked : bool; t_ctx : tctx; t_a : Z; t_b : Z; t_sa : str; t_sb : str; t_expr : texpr }.
+Definition t_eval (p : progT) : tval + rterr := teval (t_a p) (t_b p) (t_sa p) (t_sb p) (t_expr p).
 
 Definition t_arms : list pattern := [PatVar (s2l "Ok") BName; PatVar (s2l "Err") BName].
 Definition match_events (sv : stored) : list ev * exitc := arm_outcome (s_variant sv) (mech_match sv t_arms).
@@ -551,7 +608,7 @@ Definition match_events (sv : stored) : list ev * exitc := arm_outcome (s_varian
    declaration `R r = try e;` catches it and stores all four fields (declaration.cpp, since /repo 982c54e);
    anywhere else (here: an assignment) it still ends the enclosing function *)
 Definition m_run_t (p : progT) : result :=
-  let sv := try_like (t_checked p) (ceval (t_a p) (t_b p) (t_expr p)) in
+  let sv := try_like (t_checked p) (t_eval p) in
   let o := match_events sv in
   match t_ctx p with
   | TRet => match snd o with XOk => mkR (EG1 :: fst o ++ [EAfter]) XOk | x => mkR [EG1] x end
@@ -567,20 +624,25 @@ Definition class_name (k : rterr) : str :=
   | RDiv0 | RMod0 => s2l "DivisionByZeroError"
   | RBounds => s2l "IndexOutOfBoundsError"
   | RNull => s2l "NullPointerError"
+  | RArgStr _ => s2l "TypeCastError"
   end.
-Definition spec_try (r : Z + rterr) : cval :=
+Definition payload_of_tval (v : tval) : payload := match v with TVInt z => PInt z | TVStr s => PStr s end.
+Definition spec_try (r : tval + rterr) : cval :=
   match r with
-  | inl z => mkC (s2l "Ok") (PInt z)
+  | inl v => mkC (s2l "Ok") (payload_of_tval v)
   | inr k => mkC (s2l "Err") (PStr (class_name k ++ s2l ": " ++ err_msg k))
   end.
 Definition s_run_t (p : progT) : result :=
-  let c := spec_try (ceval (t_a p) (t_b p) (t_expr p)) in
+  let c := spec_try (t_eval p) in
   let o := arm_outcome (c_variant c) (spec_match c t_arms) in
   let pre := match t_ctx p with TRet => [EG1] | _ => [EG1; EG2] end in
   match snd o with XOk => mkR (pre ++ fst o ++ [EAfter]) XOk | x => mkR pre x end.
 
+(* conforming: the statement contexts that take the thrown Result as a value, and an operand that does not evaluate
+   to the empty string (Ok("") is stored exactly like Ok(0): C13-empty-string-payload through a new producer) *)
 Definition safe_t (p : progT) : bool :=
-  match t_ctx p with TAsg | TAsgMain => false | _ => true end.
+  match t_ctx p with TAsg | TAsgMain => false | _ => true end &&
+  match t_eval p with inl (TVStr []) => false | _ => true end.
 
 (* ------------------------------------------------------------------------------------------ *)
 (* 7. The type-name rule of return.cpp handle_enum_access_return / ternary.cpp                 *)
